@@ -108,5 +108,14 @@ def concrete_inputs(model):
                 b[r, c] = np.nan
             elif not eq:
                 b[r, c] = 2.0
-    return dict(self=TypeBlocks.from_blocks(a), other=TypeBlocks.from_blocks(b), compare_dtype=bool(model.get('compare_dtype')),
-                compare_class=bool(model.get('compare_class')), skipna=bool(model.get('skipna')))
+    opts = dict(compare_dtype=bool(model.get('compare_dtype')), compare_class=bool(model.get('compare_class')), skipna=bool(model.get('skipna')))
+    # the ghost cell contents do not fix a block layout: try the single 2-D block, all 1-D blocks, and every split into two 2-D blocks
+    def split(x, cut):
+        parts = [x[:, :cut], x[:, cut:]]
+        return [p_ for p_ in parts if p_.shape[1]]
+    cands = [dict(self=TypeBlocks.from_blocks(a), other=TypeBlocks.from_blocks(b), **opts)]
+    if cols > 1:
+        cands.append(dict(self=TypeBlocks.from_blocks([a[:, j] for j in range(cols)]), other=TypeBlocks.from_blocks([b[:, j] for j in range(cols)]), **opts))
+        for cut in range(1, cols):
+            cands.append(dict(self=TypeBlocks.from_blocks(split(a, cut)), other=TypeBlocks.from_blocks(split(b, cut)), **opts))
+    return cands
